@@ -93,7 +93,7 @@ pub fn params_variant(rng: &mut Rng, i: u64) -> ChainParams {
 }
 
 pub fn run(args: &Args) -> i32 {
-    let _ft = set_faketime();
+    set_faketime();
     hooks::install();
     hooks::install_panic_monitor();
     let mk = |id: &str, rule: &str| Report::new(id, "exploration", args, rule);
@@ -187,10 +187,8 @@ pub fn run(args: &Args) -> i32 {
     code
 }
 
-pub fn set_faketime() -> ckb_systemtime::FaketimeGuard {
-    let g = ckb_systemtime::faketime();
-    g.set_faketime(ChainParams::default().genesis_timestamp + 3_000_000_000);
-    g
+pub fn set_faketime() {
+    vnode::node::set_time(ChainParams::default().genesis_timestamp + 3_000_000_000);
 }
 
 /// C19: the chain root committed by every generated (valid) block equals the model's MMR
